@@ -299,14 +299,21 @@ Inductive op :=
 | OPublish (k : N) (v : path) (ttl eol : Z) (seq : option Z)
 | OResolve (p : path) (depth : Z)
 | OSleep (d : Z)
-| ORestart.                 (* a new name system (fresh publisher datastore and cache) over the same routing *)
+| ORestart                  (* a new name system (fresh publisher datastore and cache) over the same routing *)
+| OOverlap (k : N) (vA : path) (ttlA eolA : Z) (seqA : option Z) (vB : path) (ttlB eolB : Z) (seqB : option Z).
+     (* two publishes of the same key that overlap in time: B is started while A is parked
+        inside its datastore Put.  IPNSPublisher.mu covers all of updateRecord, so the code
+        must behave as A followed by B. *)
 
 Inductive ob :=
 | BPub (e : perr) (rt : option (Z * path * Z)) (ds : option (Z * path))
      (* after Publish(k, ...): the routing record of k (sequence, value, ttl) and the
         publisher-datastore record of k (sequence, value) *)
 | BRes (p : option path) (ttl : Z) (e : err) (fuzzy : bool)
-| BUnit.
+| BUnit
+| BOverlap (eA eB : perr) (rt : option (Z * path * Z)) (ds : option (Z * path))
+           (writes : list (Z * path))   (* the records handed to the publisher's datastore, in call order *)
+           (inside : bool).             (* B got past the mutex while A was parked in its Put *)
 
 Definition rt_view (r : option rec) := option_map (fun r => (r_seq r, r_val r, r_ttl r)) r.
 Definition ds_view (r : option rec) := option_map (fun r => (r_seq r, r_val r)) r.
@@ -321,6 +328,15 @@ Definition step (f : flags) (cf : cfg) (st : state) (o : op) : state * ob :=
       (st', BRes (o_path r) (o_ttl r) (o_err r) (o_fuzzy r))
   | OSleep d => (mkSt (s_rt st) (s_ds st) (s_cache st) (s_now st + Z.max 0 d), BUnit)
   | ORestart => (mkSt (s_rt st) [] [] (s_now st), BUnit)
+  | OOverlap k vA ttlA eolA seqA vB ttlB eolB seqB =>
+      let (st1, eA) := publish f cf st k vA ttlA eolA seqA in
+      let (st2, eB) := publish f cf st1 k vB ttlB eolB seqB in
+      let w (e : perr) (s : state) := match e with
+                                      | PInvalidSeq => []
+                                      | _ => match ds_view (alookup k (s_ds s)) with Some x => [x] | None => [] end
+                                      end in
+      (st2, BOverlap eA eB (rt_view (alookup k (s_rt st2))) (ds_view (alookup k (s_ds st2)))
+                     (w eA st1 ++ w eB st2) false)
   end.
 
 Fixpoint run (f : flags) (cf : cfg) (st : state) (ops : list op) : state * list ob :=
@@ -427,6 +443,27 @@ Definition spec_resolve (cf : cfg) (sh : shadow) (p : path) (depth : Z)
   (if c_size cf <=? 0 then ttl =? o_ttl r
    else if 0 <? o_ttl r then (0 <? ttl) && (ttl <=? o_ttl r) else true).
 
+(** overlapping publishes (first sentence of the property, for publishes that overlap in
+    time): neither stored sequence number decreases; among the records handed to the
+    datastore, in order, a record whose value differs from the one before it (the stored
+    one, for the first) carries a strictly larger sequence number, and none a smaller one. *)
+Fixpoint writes_increasing (prev : option (Z * path)) (ws : list (Z * path)) : bool :=
+  match ws with
+  | [] => true
+  | (s, v) :: r =>
+      (match prev with
+       | Some (s0, v0) => if path_eqb v0 v then s0 <=? s else s0 <? s
+       | None => true
+       end) && writes_increasing (Some (s, v)) r
+  end.
+Definition spec_overlap (ort nrt : option (Z * path * Z)) (ods nds : option (Z * path))
+           (writes : list (Z * path)) : bool :=
+  seq_mono (fun x => fst (fst x)) ort nrt && seq_mono fst ods nds &&
+  writes_increasing (match ods with
+                     | Some x => Some x
+                     | None => match ort with Some (s, v, _) => Some (s, v) | None => None end
+                     end) writes.
+
 Fixpoint spec_run (cf : cfg) (sh : shadow) (ops : list op) (obs : list ob) : bool :=
   match ops, obs with
   | [], [] => true
@@ -438,6 +475,10 @@ Fixpoint spec_run (cf : cfg) (sh : shadow) (ops : list op) (obs : list ob) : boo
       spec_resolve cf sh p depth op ttl e && spec_run cf sh ops' obs'
   | OSleep _ :: ops', BUnit :: obs' => spec_run cf sh ops' obs'
   | ORestart :: ops', BUnit :: obs' => spec_run cf (mkSh (h_rt sh) []) ops' obs'
+  | OOverlap k _ _ _ _ _ _ _ _ :: ops', BOverlap _ _ nrt nds writes _ :: obs' =>
+      spec_overlap (alookup k (h_rt sh)) nrt (alookup k (h_ds sh)) nds writes &&
+      spec_run cf (mkSh (match nrt with Some x => aset k x (h_rt sh) | None => h_rt sh end)
+                        (match nds with Some x => aset k x (h_ds sh) | None => h_ds sh end)) ops' obs'
   | _, _ => false
   end.
 
@@ -450,6 +491,14 @@ Definition ob_match (m o : ob) : bool :=
   | BPub e rt ds, BPub e' rt' ds' => perr_eqb e e' && rtv_eqb rt rt' && dsv_eqb ds ds'
   | BRes p t e fz, BRes p' t' e' _ => opath_eqb p p' && err_eqb e e' && ttl_match fz t t'
   | BUnit, BUnit => true
+  | BOverlap eA eB rt ds ws ins, BOverlap eA' eB' rt' ds' ws' ins' =>
+      perr_eqb eA eA' && perr_eqb eB eB' && rtv_eqb rt rt' && dsv_eqb ds ds' && Bool.eqb ins ins' &&
+      (fix weq (a c : list (Z * path)) : bool :=
+         match a, c with
+         | [], [] => true
+         | x :: a', y :: c' => dsv_eqb (Some x) (Some y) && weq a' c'
+         | _, _ => false
+         end) ws ws'
   | _, _ => false
   end.
 Fixpoint obs_match (ms os : list ob) : bool :=
